@@ -146,7 +146,10 @@ def _propagate_glyph_anchors(glyphSet, composite, processed, modified, categorie
         glyph = glyphSet[component.baseGlyph]
         anchor_names |= {a.name for a in glyph.anchors}
 
-    for anchor_name in anchor_names:
+    # (sorted: 'top' from two components is numbered 'top_1', 'top_2' and may meet a
+    # ligature component's own 'top_1', 'top_2' in to_add - which one is written last
+    # must not depend on the iteration order of a set)
+    for anchor_name in sorted(anchor_names):
         # don't add if composite glyph already contains this anchor OR any
         # associated ligature anchors (e.g. "top_1, top_2" for "top")
         if not any(a.name.startswith(anchor_name) for a in composite.anchors):
